@@ -163,6 +163,50 @@ def wl_bloom_sweep(ctx, rng, case):
     case.nontrivial = True
 
 
+def wl_same_geometry_pairs(ctx, rng, case):
+    """two filters built from DIFFERENT inputs that derive the SAME geometry are compatible operands; whatever (n, p) the result of their
+    union / intersection reports must again derive the result's own geometry, and its reload must have it too"""
+    import probables as P
+
+    found = None
+    for _ in range(200):
+        n = rng.randint(2, 400)
+        p = rng.choice([0.3, 0.2, 0.1, 0.065, 0.05, 0.03, 0.01, 0.004, 0.001])
+        mk = refimpl.bloom_sizing_simple(n, p)
+        if not mk or mk[1] < 1 or mk[0] > 50000:
+            continue
+        for _ in range(60):
+            n2 = max(1, n + rng.choice([-2, -1, 1, 2, 3]))
+            p2 = p * rng.uniform(0.6, 1.6)
+            if not 0 < p2 < 0.7:
+                continue
+            if refimpl.bloom_sizing_simple(n2, p2) == mk:
+                found = (n, p, n2, p2, mk)
+                break
+        if found:
+            break
+    if not found:
+        return
+    n, p, n2, p2, (m, k) = found
+    case.desc = {"a": (n, p), "b": (n2, p2), "bits": m, "hashes": k, "kind": "same geometry from different inputs"}
+    A, B = P.BloomFilter(n, p), P.BloomFilter(n2, p2)
+    for i in range(rng.randint(0, 8)):
+        A.add(f"a{i}")
+        B.add(f"b{i}")
+    for name, r in (("a.union(b)", A.union(B)), ("b.union(a)", B.union(A)), ("a.intersection(b)", A.intersection(B)), ("b.intersection(a)", B.intersection(A))):
+        ctx.check(r is not None, f"{name} of two filters with identical geometry and hashing returned None", a=(n, p), b=(n2, p2))
+        sz = refimpl.bloom_sizing(r.estimated_elements, r.false_positive_rate)
+        ok = sz is not None and r.number_bits in sz[0] and r.number_hashes in sz[1].get(r.number_bits, ())
+        ctx.check(ok and (r.number_bits, r.number_hashes) == (m, k), f"the (est_elements, rate) that the result of {name} reports do not derive its own geometry",
+                  reported=(r.estimated_elements, r.false_positive_rate), geometry=(r.number_bits, r.number_hashes), operands=(m, k))
+        if r.elements_added >= 0:
+            g = P.BloomFilter.frombytes(bytes(r))
+            ctx.check((g.number_bits, g.number_hashes, g.bloom_length) == (r.number_bits, r.number_hashes, r.bloom_length), f"the reload of the result of {name} has another geometry",
+                      got=(g.number_bits, g.number_hashes), want=(r.number_bits, r.number_hashes))
+    ctx.count("bloom.same_geometry_pairs")
+    case.nontrivial = True
+
+
 def wl_cms(ctx, rng, case):
     """count-min sketch sized by confidence and error rate"""
     import probables as P
@@ -277,11 +321,12 @@ PROP = Prop(
           "2b/2^f, then random pairs. Each case covers 60-170 configurations; all are distinct (different n or random draws); non-trivial = at least one accepted configuration checked."),
     workloads=[
         Workload("bloom_sweep", wl_bloom_sweep, quick=len(NS) + 60, thorough=len(NS) + 100000),
+        Workload("same_geometry_pairs", wl_same_geometry_pairs, quick=60, thorough=6000),
         Workload("cms", wl_cms, quick=30, thorough=12000),
         Workload("cuckoo", wl_cuckoo, quick=20, thorough=8000),
     ],
     assumptions=["formulas evaluated in 60-digit decimal arithmetic on the exact values of the float inputs; either neighbour accepted when the exact "
                  "argument of ceil/round is within 1e-12 (relative) of a breakpoint (float noise is ~1e-15; a tolerance-style rounding bug is >= 1e-10)",
                  "filters above 400 000 bits are sized through the class-level sizing routine without allocating the array"],
-    required=["bloom.configs_checked", "bloom.fractional_est_configs", "bloom.configs_constructed", "bloom.reload_geometry_checks", "cms.configs_checked", "cuckoo.configs_checked"],
+    required=["bloom.configs_checked", "bloom.same_geometry_pairs", "bloom.fractional_est_configs", "bloom.configs_constructed", "bloom.reload_geometry_checks", "cms.configs_checked", "cuckoo.configs_checked"],
 )
